@@ -13,11 +13,12 @@ load('/verif/thorough-logs/round1-summary.txt','round 1 (25 Sep evening)')
 load('/verif/thorough-logs/round2-summary.txt','round 2 (26 Sep 01:52-08:50)')
 load('/verif/thorough-logs/round3-summary.txt','round 3 (26 Sep 08:50)')
 load('/verif/thorough-logs/round4-summary.txt','round 4 (26 Sep 09:46-15:18)')
+load('/verif/thorough-logs/round5-summary.txt','round 5 (26 Sep 15:46 ff., final code; groups of 3-4 checks in parallel)')
 out=["<!-- thorough:begin -->","","Thorough tier, last completed run per property (sequential background loop `bin/thorough2.sh` on the shared machine, binaries built when the round started; `exit` is the exit code of the check; a run that reaches its time budget ends with exit 0 and `exhaustive = no`; summaries in `thorough-logs/`):","","| id | run | exit | wall | states | transitions | executions | outcomes | exhaustive | unlisted violations / known findings |","|---|---|---|---|---|---|---|---|---|---|"]
 for k in sorted(rows):
     lab,ex,secs,st,tr,tc,oc,exh,v,kn=rows[k]
     out.append(f"| {k} | {lab} | {ex} | {int(secs)//60} min {int(secs)%60} s | {int(st):,} | {int(tr):,} | {int(tc):,} | {oc} | {'yes' if exh=='true' else 'no'} | {v} / {kn} |")
-out+=["","(The thorough run of C09 in round 2 exited 1: the genuine page-id defect repaired by 2e691b1; the thorough run of C19 in round 2 died on `checkptr`, see §12. Both were re-run in round 4. C01, C02, C18 and C20 were not reached again in round 4: their rows are those of round 2, before the seeds `long-rows`, `after-idle-session` and the shutdown histories existed.)","","<!-- thorough:end -->"]
+out+=["","(The thorough run of C09 in round 2 exited 1: the genuine page-id defect repaired by 2e691b1; the thorough run of C19 in round 2 died on `checkptr`, see §12. Both were re-run in round 4. Round 5 ran with the final code; its checks shared the 16 cores in groups of three or four, so budget-limited runs covered less than a run alone would. C18 was not re-run after round 2: its additions are part of the quick tier.)","","<!-- thorough:end -->"]
 block="\n".join(out)
 s=open('/verif/DESIGN.md').read()
 s=re.sub(r'<!-- thorough:begin -->.*?<!-- thorough:end -->', lambda m: block, s, flags=re.S)
